@@ -196,7 +196,9 @@ OutcomeOfJson(o) == o       \* JSON arrays are tuples already: <<"none">>, <<"wi
 
 \* what a move-like value denotes among the legal moves of `pos`; "unknown" for kinds the spec
 \* cannot decode yet (then only soundness is required: an accepted move must be legal)
-LikeKnown(like) == like.t \in {"move", "uci", "ucimove"}
+\* (text outside the UCI syntax is only required to be handled soundly: no listed property says whether a lenient
+\* reader may accept it - C10 speaks about syntactically valid strings)
+LikeKnown(like) == like.t = "move" \/ (like.t \in {"uci", "ucimove"} /\ UciParse(like.text).ok)
 IsTryLike(like) == like.t = "try"
 IsSanLike(like) == like.t \in {"san", "sanmove"}
 \* (TryUnchecked: a legal move, or the null move when the mover is not in check - its documented contract)
@@ -283,7 +285,9 @@ ChainChecks(e) ==
                  e.res = "ok" => (IF IsTryLike(e.like) THEN tryOK ELSE (m \in LS /\ (known => m \in d)))>>,
              <<"try_unchecked_within_contract_is_accepted", IsTryLike(e.like) => e.res = "ok">>,
              <<"san_text_sound_and_complete", IsSanLike(e.like) => SanLikeOK(cur, LS, e.like, e.res, m)>>,
-             <<"refused_push_changes_nothing", e.res # "ok" => e.obs = pobs>>}
+             <<"refused_push_changes_nothing", e.res # "ok" => e.obs = pobs>>,
+             <<"x_text_outside_the_uci_syntax_is_refused",
+                 (e.like.t \in {"uci", "ucimove"} /\ ~UciParse(e.like.text).ok) => e.res # "ok">>}
             \cup (IF e.res = "ok" /\ (m \in LS \/ tryOK)
                   THEN ObsChecks(ChPushObs(ch, m, e.obs), e.obs)
                        \cup {<<"x_null_move_clock_as_transcribed", Cur(ChPush(ch, m)).hm = e.obs.last.pos.hm>>}
